@@ -5,6 +5,7 @@ import subprocess
 
 from vlib import common as C
 from vlib import conc
+from vlib import memsearch
 
 RULES = ['start.single', 'start.sticky', 'start.on', 'start.multi', 'start.msticky', 'start.mon', 'start.task', 'start.resched',
          'start.current', 'rdLoad.empty', 'rdLoad.cbs', 'rdLoad.result', 'ready.true', 'ready.false', 'ready.false.cbs',
@@ -25,6 +26,10 @@ for _k, _flags in EXTRA_KINDS.items():
     C.LIB_KINDS.setdefault(_k, (['-DCMAKE_BUILD_TYPE=RelWithDebInfo', '-DYACLIB_FAULT=FIBER', '-DYACLIB_CXX_STANDARD=20',
                                  '-DYACLIB_FLAGS=' + _flags, '-DYACLIB_DEFINITIONS=YACLIB_VERIF'],
                                 ['-std=c++20', '-fcoroutines', '-DYACLIB_VERIF']))
+
+MEM_FILES = ['include/yaclib/coro/detail/await_awaiter.hpp', 'include/yaclib/coro/detail/await_on_awaiter.hpp',
+             'include/yaclib/coro/detail/promise_type.hpp', 'include/yaclib/coro/detail/on_awaiter.hpp',
+             'include/yaclib/algo/detail/shared_event.hpp', 'include/yaclib/coro/yield.hpp', 'include/yaclib/coro/current_executor.hpp']
 
 PROBE_HEADERS = ['yaclib/coro/await.hpp', 'yaclib/coro/await_inline.hpp', 'yaclib/coro/await_on.hpp', 'yaclib/coro/await_sticky.hpp',
                  'yaclib/coro/on.hpp', 'yaclib/coro/yield.hpp', 'yaclib/coro/current_executor.hpp', 'yaclib/coro/future.hpp',
@@ -54,9 +59,13 @@ def other_configs(res, tier):
     out = {}
     for kind in EXTRA_KINDS:
         binary = C.build_harness('c13', kind, ['c13.cpp'])
-        trace_file = os.path.join(C.WORK, 'C13_%s_%s_traces.txt' % (tier, kind))
+        trace_file = os.path.join(C.WORK, 'C13_%s_%s_%d_traces.txt' % (tier, kind, os.getpid()))
         stats, _, violations = conc.run_harness(binary, ['--mode', 'dfs', '--pb', '2', '--wb', '1', '--seed', str(C.seed()), '--out', trace_file])
         val = conc.validate('coro', trace_file)
+        try:
+            os.remove(trace_file)
+        except OSError:
+            pass
         out[kind] = {'explorer': stats, 'traces_validated': val['ok'] if val else 0,
                      'trace_mismatches': len(val['mismatches']) if val else None}
         seen = set()
@@ -103,7 +112,12 @@ def run(res, tier):
         unmodelled_ok=STALE)
     if tier == 'thorough':
         other_configs(res, tier)
+    # an obligation broke (e.g. a tie: a memory order of an awaiter was edited) and no schedule shows anything — the FIBER backend
+    # is sequentially consistent: search the clause "resumes only AFTER what it awaited has happened" at the memory-model level
+    # (role table of C04 restricted to the awaiter files + the ThreadSanitizer scenario `coawait`, vlib/memsearch.py)
+    memsearch.refine_no_input(res, 'C13', tier, MEM_FILES, 'coawait')
 
 
 def replay(path):
-    return conc.replay('C13', path)
+    r = memsearch.replay(path)
+    return conc.replay('C13', path) if r is None else r
